@@ -156,7 +156,62 @@ def build_value(desc):
         return [build_value(d) for d in desc[1:]]
     if desc[0] == "D":
         return {k: build_value(d) for k, d in desc[1:]}
+    if desc[0] == "M":
+        # a mapping that is not a plain dict: ["M", kind, [key, desc] ...]
+        content = {k: build_value(d) for k, d in desc[2:]}
+        return MAPPING_KINDS[desc[1]](content)
     raise ValueError(desc)
+
+
+def _mapping_kinds():
+    import collections
+    import types
+
+    class FrozenMap(collections.abc.Mapping):
+        def __init__(self, d):
+            self._d = dict(d)
+
+        def __getitem__(self, k):
+            return self._d[k]
+
+        def __iter__(self):
+            return iter(self._d)
+
+        def __len__(self):
+            return len(self._d)
+
+        def __repr__(self):
+            return f"FrozenMap({self._d!r})"
+
+    class DictSub(dict):
+        pass
+
+    return {"proxy": types.MappingProxyType, "chain": collections.ChainMap, "userdict": collections.UserDict,
+            "ordered": collections.OrderedDict, "default": lambda d: collections.defaultdict(int, d), "frozen": FrozenMap, "dictsub": DictSub}
+
+
+MAPPING_KINDS = _mapping_kinds()
+# valid content per object base (and a content with a nested object position)
+MAPPING_CONTENT = {
+    "Point": [[], [["x", "int:1"]], [["x", "int:1"], ["y", "int:2"]]],
+    "Rec": [[], [["v", "int:1"]]],
+    "One": [[], [["a", "str:a"]], [["b", "int:1"]]],
+}
+MAPPING_NESTED = {"Point": ("inner", [["a", "True"]]), "Rec": ("next", [["v", "int:1"]]), "One": ("p", [["a", "True"]])}
+
+
+def mapping_descs(base):
+    """Mappings that are not plain dicts in every input-object position: top level, list item, nested field value."""
+    for kind in MAPPING_KINDS:
+        for content in MAPPING_CONTENT[base]:
+            m = ["M", kind] + content
+            yield m
+            yield ["L", m]
+            yield ["L", m, ["D"] + content]
+        fname, inner = MAPPING_NESTED[base]
+        first = MAPPING_CONTENT[base][1] if base != "One" else []
+        yield ["D"] + first + [[fname, ["M", kind] + inner]]
+        yield ["M", kind] + first + [[fname, ["M", kind] + inner]]
 
 
 DICT_VALUES_QUICK = ["None", "Undefined", "True", "int:1", "int:2147483648", "str:a", "str:RED", "dict:", "list:1"]
@@ -422,11 +477,14 @@ def _errors_of_value(v, t):
     return errs
 
 
-def _errors_of_literal(node, t, vv=None):
+def _errors_of_literal(node, t, vv=None, fvv=None):
     from graphql.utilities.validate_input_value import validate_input_literal
 
     errs = []
-    validate_input_literal(node, t, lambda e, p: errs.append((e.message, list(p))), vv)
+    if fvv is not None:
+        validate_input_literal(node, t, lambda e, p: errs.append((e.message, list(p))), vv, fvv)
+    else:
+        validate_input_literal(node, t, lambda e, p: errs.append((e.message, list(p))), vv)
     return errs
 
 
@@ -650,7 +708,30 @@ def variable_values_for(e, p, state):
     return get_variable_values(e.schema, defs, inputs)
 
 
-def check_var_literal(ts, tmpl, path, state, res):
+FSTATES = [None, "f_absent", "f_null", "f_valid"]
+
+
+def fragment_values_for(e, p, fstate, vv):
+    """FragmentVariableValues of a fragment that declares `$v` itself (experimental fragment arguments), spread without an
+    argument for v / with null / with a valid literal - built by the library's own get_fragment_variable_values."""
+    from graphql import parse
+    from graphql.execution.get_variable_signature import get_variable_signature
+    from graphql.execution.values import get_fragment_variable_values
+
+    decl = nullable_str(p)
+    arg = {"f_absent": "", "f_null": "(v: null)", "f_valid": f"(v: {sample_literal(p)})"}[fstate]
+    key = ("frag", decl, arg)
+    cached = e._docs.get(key)
+    if cached is None:
+        doc = parse(f"{{ ...F{arg} }} fragment F($v: {decl}) on Query {{ __typename }}", experimental_fragment_arguments=True)
+        spread = doc.definitions[0].selection_set.selections[0]
+        sigs = {vd.variable.name.value: get_variable_signature(e.schema, vd) for vd in doc.definitions[1].variable_definitions}
+        cached = e._docs[key] = (spread, sigs)
+    spread, sigs = cached
+    return get_fragment_variable_values(spread, sigs, vv)
+
+
+def check_var_literal(ts, tmpl, path, state, res, fstate=None):
     from graphql.pyutils import Undefined
     from graphql.utilities import coerce_input_literal
 
@@ -662,7 +743,7 @@ def check_var_literal(ts, tmpl, path, state, res):
         if pth == tuple(path):
             p = pt
     text = with_var(tnode, tuple(path))
-    c = Ctx(res, ts, "variable-literal", {"text": text, "template": tmpl, "path": list(path), "state": state})
+    c = Ctx(res, ts, "variable-literal", {"text": text, "template": tmpl, "path": list(path), "state": state, "fstate": fstate})
     if p is None:
         return c.viol("engine", "no such hole")
     node = e.node(text)
@@ -673,19 +754,31 @@ def check_var_literal(ts, tmpl, path, state, res):
         return c.viol("get_variable_values_raises", f"{type(x).__name__}: {x}")
     if isinstance(vv, list):
         return c.viol("variable_errors_for_valid_input", f"${'v'}: {nullable_str(p)} [{state}]: {[x.message for x in vv][:2]}")
+    fvv = None
+    scope = vv.coerced  # what `$v` means at this place
+    if fstate is not None:
+        # the literal sits inside a fragment that declares its own `$v`: the fragment's variable shadows the operation's,
+        # also when the fragment variable has no value
+        try:
+            fvv = fragment_values_for(e, p, fstate, vv)
+        except Exception as x:  # noqa: BLE001
+            return c.viol("get_fragment_variable_values_raises", f"{type(x).__name__}: {x}")
+        scope = {"f_absent": {}, "f_null": {"v": None}, "f_valid": {"v": fvv.coerced.get("v", Undefined)}}[fstate]
+        if fstate == "f_valid" and scope["v"] is Undefined:
+            return c.viol("fragment_argument_lost", f"...F(v: {sample_literal(p)}) gives no value for $v")
     try:
-        got = coerce_input_literal(node, t, vv)
+        got = coerce_input_literal(node, t, vv, fvv) if fvv is not None else coerce_input_literal(node, t, vv)
     except Exception as x:  # noqa: BLE001
         return c.viol("coerce_literal_raises", f"{type(x).__name__}: {x}")
     try:
-        errs = _errors_of_literal(node, t, vv)
+        errs = _errors_of_literal(node, t, vv, fvv)
         static_errs = _errors_of_literal(node, t)
     except Exception as x:  # noqa: BLE001
         return c.viol("validate_literal_raises", f"{type(x).__name__}: {x}")
     res.executions += 4
     ok = got is not Undefined
     NonNull = refc.kinds()[0]
-    top_missing = not path and "v" not in vv.coerced
+    top_missing = not path and "v" not in scope
     if top_missing:
         # "no value": Undefined is the answer; an error is due exactly when the position is non-null
         if ok:
@@ -701,7 +794,7 @@ def check_var_literal(ts, tmpl, path, state, res):
         return c.viol("nonconforming_result", f"coerced to {short(got)} which is outside the type's domain")
     if base_of(ts) != "Any":
         try:
-            want = refc.coerce_literal(node, t, vv.coerced)
+            want = refc.coerce_literal(node, t, scope)
             rok = want is not refc.MISSING
         except refc.Invalid:
             want, rok = None, False
@@ -713,7 +806,7 @@ def check_var_literal(ts, tmpl, path, state, res):
     # static validation may not report more than validation with runtime values
     if static_errs and not errs and not top_missing:
         return c.viol("static_validation_stricter", f"static: {static_errs[0][0]!r}, with variable values: no error")
-    res.outcome((ts, tmpl, tuple(path), state, ok, short(got, 60) if ok else None))
+    res.outcome((ts, tmpl, tuple(path), state, fstate, ok, short(got, 60) if ok else None))
 
 
 DEFAULTS = [None, "sample", "null", "BLUE"]
@@ -825,13 +918,70 @@ def check_memo(ts, res):
             return
 
 
+SHARED_WRAPS = ["{}", "[{}]", "{}!", "[[{}]]", "[{}!]!"]
+SHARED_DEFAULTS = [("Int", "literal", "1"), ("Int", "value", 1), ("String", "literal", '"s"'), ("Color", "literal", "RED"), ("Color", "value", "RED"),
+                   ("Point", "literal", "{x: 1}"), ("Point", "value", {"x": 1})]
+
+
+def check_shared_default(res):
+    """One GraphQLDefaultInput object used as the default of several input fields whose types wrap the same named type
+    differently (possible only in programmatically built schemas): every order in which the defaults are first applied must give
+    each field the value an unshared default gives it - through coerce_input_value, coerce_input_literal and both validators."""
+    import graphql as g
+    from graphql.language import parse_const_value
+    from graphql.pyutils import Undefined
+    from graphql.utilities import coerce_input_literal, coerce_input_value
+
+    DI, IF = g.GraphQLDefaultInput, g.GraphQLInputField
+    for base, how, dv in SHARED_DEFAULTS:
+        def mk_default():
+            return DI(literal=parse_const_value(dv)) if how == "literal" else DI(value=dv)
+
+        def build(shared):
+            e = Env()
+            named = e.named[base]
+            d = mk_default() if shared else None
+            holders = []
+            for i, w in enumerate(SHARED_WRAPS):
+                t = e.make(w.format(base))
+                holders.append(g.GraphQLInputObjectType(f"H{i}", {"f": IF(t, default=d if shared else mk_default())}))
+            return named, holders
+
+        _n, fresh = build(False)
+        want = []
+        for h in fresh:
+            want.append(repr(coerce_input_value({}, h)))
+        for order in itertools.permutations(range(len(SHARED_WRAPS))):
+            for via in ("value", "literal"):
+                _n, holders = build(True)
+                got = {}
+                for i in order:
+                    res.executions += 1
+                    if via == "value":
+                        got[i] = repr(coerce_input_value({}, holders[i]))
+                    else:
+                        got[i] = repr(coerce_input_literal(parse_const_value("{}"), holders[i]))
+                res.evaluations += 1
+                res.states += 1
+                res.transitions += len(order)
+                for i in range(len(SHARED_WRAPS)):
+                    if got[i] != want[i]:
+                        res.violation(f"shared_default_depends_on_history:{base}",
+                                      f"default {dv!r} ({how}) shared by fields of types {[w.format(base) for w in SHARED_WRAPS]}: applied in order {order} via coerce_input_{via}, "
+                                      f"field of type {SHARED_WRAPS[i].format(base)} gets {got[i]}, an unshared default gives {want[i]}",
+                                      {"kind": "shared", "type": base})
+                        return
+        res.outcome(("shared", base, how, tuple(want)))
+    res.sample({"family": "shared default object", "wrappings": SHARED_WRAPS, "defaults": [d[:2] for d in SHARED_DEFAULTS]}, 1)
+
+
 # --------------------------------------------------------------------------------
 # shards
 # --------------------------------------------------------------------------------
 
 
 def shards(tier):
-    out = []
+    out = [("shared", "-", 0)]
     for ts in type_strings():
         out.append(("type", ts, 0))
         b = base_of(ts)
@@ -859,6 +1009,9 @@ def var_cases(ts):
 def run_shard(shard, tier):
     res = Result()
     kind, ts, arg = shard
+    if kind == "shared":
+        check_shared_default(res)
+        return res
     if kind == "type":
         n = 0
         for desc in value_descs(ts, tier):
@@ -868,8 +1021,9 @@ def run_shard(shard, tier):
         check_literals(ts, lits, res)
         n += len(lits)
         for tmpl, path, state in var_cases(ts):
-            check_var_literal(ts, tmpl, path, state, res)
-            n += 1
+            for fstate in FSTATES:
+                check_var_literal(ts, tmpl, path, state, res, fstate)
+                n += 1
         extra = [["D"], ["D", ["x", "int:1"]], ["D", ["x", "int:1"], [UNKNOWN, "None"]], ["D", ["v", "int:1"]],
                  ["D", ["a", "str:a"]], ["D", ["a", "str:a"], ["b", "None"]], ["L", "dict:x=1", "dict:x=1,zz=None"]]
         for default in DEFAULTS:
@@ -888,6 +1042,11 @@ def run_shard(shard, tier):
         for desc in dict_descs(base_of(ts), tier, arg, is_full(ts, tier)):
             check_value(ts, desc, res)
             n += 1
+        if not arg:
+            for desc in mapping_descs(base_of(ts)):
+                check_value(ts, desc, res)
+                check_variables(ts, None, desc, res)
+                n += 2
         res.states += n
         res.transitions += n
         if ts == "Point":
@@ -911,9 +1070,11 @@ def replay(payload):
     elif kind == "literal":
         check_literal(ts, payload["text"], res)
     elif kind == "variable-literal":
-        check_var_literal(ts, payload["template"], payload["path"], payload["state"], res)
+        check_var_literal(ts, payload["template"], payload["path"], payload["state"], res, payload.get("fstate"))
     elif kind == "variables":
         check_variables(ts, payload["default"], payload["desc"], res)
     elif kind == "memo":
         check_memo(ts, res)
+    elif kind == "shared":
+        check_shared_default(res)
     return [{"signature": x["signature"], "summary": x["summary"]} for x in res.violations]
